@@ -292,6 +292,11 @@ func GetOutputNodes(root *html.Node) []*html.Node {
 			return false
 
 		case html.ElementNode:
+			// Like the original dom-distiller, elements that are not rendered
+			// (hidden, script, style, ...) are not part of the output.
+			if !IsProbablyVisible(node) {
+				return false
+			}
 			outputNodes = append(outputNodes, node)
 			return true
 
